@@ -8,6 +8,7 @@ VARIABLES l, told   \* told: set of <<digest, len>> passed to Tell in the curren
 TraceInit == l = 1 /\ told = {}
 Viol(ev) ==
     IF ev.panic THEN {"NoPanic"}
+    ELSE IF ev.ev = "askbuf" THEN {"BufferStable"}      \* an ask handler saw its request change while it ran
     ELSE IF ev.ev # "recv" THEN {}
     ELSE (IF <<ev.digest, ev.len>> \notin told THEN {"NoMix"} ELSE {})
          \cup (IF ev.digest # ev.digestout THEN {"BufferStable"} ELSE {})
